@@ -150,6 +150,13 @@ check(
     "openapi_bulk is strict only on the slice 'table name title-cases to the class name, explicit/inferable PK, no ForeignKey' (P16, P32, P33, P57 cover the rest); emit.openapi has no open class.",
 )
 
+check(
+    "C17",
+    "Hypothesis-generated adversarial inputs (payload x position x trigger x style x API) under a sys.addaudithook monitor with sentinel callables / modules / files; opcode inspection of string-compiled code; positive controls",
+    "Generated-input search over adversarial sources: payloads are placed in defaults, type strings, descriptions (also spelled only with the characters the doc-type filter passes), decorators, class bodies and module-level statements and run through every parser, the emitters on the result, doctrans, sync, sync_properties and gen-from-file; no sentinel may fire, no process/network/ctypes event may occur, no sentinel module may be imported, string-compiled code executed from a cdd frame must be a pure name/subscript probe (no CALL/IMPORT/STORE/MAKE_FUNCTION, no dunder), and cdd frames may only write the explicitly named output files. The two opt-in paths must be SEEN by the monitor on every run.",
+    "Audit events are Python-level; exec of library-generated code (namedtuple, dataclass) from non-cdd frames is accepted unless it references a sentinel.",
+)
+
 NOT_YET = "check not built yet in this round (work in progress; DESIGN.md section 4 has the plan)"
 
 
